@@ -384,6 +384,22 @@ Definition parents_contained (s : fs) (f : pfile) (np : ppath) : option bool :=
   let parent := removelast target in
   new_dirs_inside (length parent) s (pf_dir f) parent.
 
+(* the directory the source entry really lives in must lie in the input directory too (recursive
+   gathering follows symbolic links to directories):
+   (input_directory / relative_path).parent.resolve().is_relative_to(input_directory);
+   the parent, not the entry: the entry itself may be a symbolic link (it is renamed, not followed).
+   For a one-component relative path the parent is the input directory itself.  (File.__init__ asserts
+   that relative_path is relative; joining an absolute one would replace the input directory.) *)
+Definition source_parent (f : pfile) : upath :=
+  {| up_abs := true;
+     up_comps := (if Nat.eqb (pp_root (pf_rel f)) 0 then pf_dir f else []) ++ removelast (pp_parts (pf_rel f)) |}.
+
+Definition source_contained (s : fs) (f : pfile) : option bool :=
+  match realpath s [] (source_parent f) with
+  | None => None                                         (* symlink loop: RuntimeError *)
+  | Some a => Some (is_prefix_path (pf_dir f) a)
+  end.
+
 Definition backlog_entry := (rpath * ppath * ppath)%type.   (* input directory, source, destination *)
 
 Fixpoint first_pass (c : cfg) (plan : list (pfile * rendered)) (w : world) (cwd : rpath)
@@ -406,11 +422,16 @@ Fixpoint first_pass (c : cfg) (plan : list (pfile * rendered)) (w : world) (cwd 
                | None => (w, cwd1, backlog, Some ExOther)
                | Some false => (w, cwd1, backlog, Some ExInvalidDest)
                | Some true =>
+               match source_contained (w_fs w) f with
+               | None => (w, cwd1, backlog, Some ExOther)
+               | Some false => (w, cwd1, backlog, Some ExInvalidDest)
+               | Some true =>
                match renamer c w cwd1 (pf_rel f) np false with
                | (w1, None) => first_pass c rest w1 cwd1 backlog
                | (w1, Some e) =>
                  if is_file_exists e then first_pass c rest w1 cwd1 ((pf_dir f, pf_rel f, np) :: backlog)
                  else (w1, cwd1, backlog, Some e)
+               end
                end
                end
              end
